@@ -168,7 +168,9 @@ impl DataStorage {
         if self.committed_objects.contains_key(rev.digest()) {
             true
         } else {
-            matches!(self.read_object(rev), Ok(_obj))
+            // Revisions without a stored object are always readable; anything else must be in an
+            // indexed pack: the object cache and the stage can hold content that no stored pack has
+            rev.is_empty() || rev.is_deleted() || rev.is_resolved() || rev.is_charcode()
         }
     }
 
